@@ -474,9 +474,9 @@ pub fn run(cx: &mut Ctx) {
     cx.assume("scenes with an edge-on triangle or a clipped sub-triangle under 1e-3 px^2 are excluded when culling is on (its winding is numerically ambiguous)");
     cx.assume("depth_sort is None here (C06 covers the sort settings); the model replays per-triangle fragment streams recorded from solo renders with culling and depth test off");
     let md = cx.tier.pick(24, 48);
-    let n = cx.n(60_000, 2_000_000);
+    let n = cx.n(300_000, 6_000_000);
     cx.prop_check("model", n, move || mask_case(md), |c, obs| check_mask(c, obs));
-    let n = cx.n(1_500, 60_000);
+    let n = cx.n(6_000, 150_000);
     cx.prop_check("solid", n, solid_case, |c, obs| check_solid(c, obs));
 }
 
